@@ -43,6 +43,13 @@ def handle (args : List String) : Option String :=
       let xs ← parseVec? xs
       some ("".intercalate (xs.map fun x =>
         showOptBool (if x.isNan then none else some (Gen.Cmp.withinScalar lo hi le ue x))))
+  | ["infcmp", b, t, u, xs] => do
+      -- both evaluators side by side (C07_inf_disagree): "<thresholded value>:<membership>" per value
+      let b ← BinType.ofName? b
+      let (t, u, xs) := (← parseXR? t, ← parseXR? u, ← parseVec? xs)
+      let cells ← xs.mapM fun x => (applyThreshold b t (some u) x).map fun v =>
+        s!"{v}:{showOptBool ((intervalOf b t u).within x)}"
+      some (";".intercalate cells)
   | ["thresh", b, t, u, xs] => do
       let b ← BinType.ofName? b
       let (t, u, xs) := (← parseXR? t, ← parseOptXR? u, ← parseVec? xs)
